@@ -210,6 +210,10 @@ func sameTexts(a, b [][]value.Primary) bool {
 		if value.IsNull(p) {
 			return ""
 		}
+		switch p.(type) {
+		case *value.Ternary, *value.Boolean: // written to the file in lower case
+			return strings.ToLower(p.String())
+		}
 		s := value.ToString(p)
 		if value.IsNull(s) {
 			return p.String()
